@@ -15,6 +15,7 @@ class Crash(Exception):
     def __init__(self, cmd, rc, log, hang=False):
         Exception.__init__(self, 'driver died rc=%s on %r' % (rc, cmd[:80]))
         self.cmd, self.rc, self.log, self.hang = cmd, rc, log, hang
+        self.answered = 0           # answer lines received before the process died / the time ran out
 
     def key(self):
         """(class, site) for the finding key."""
@@ -60,6 +61,13 @@ class Driver:
 
         def pre():
             os.dup2(w, 3)
+            # a driver must not outlive the check that started it (a check killed while a seeded change makes the driver spin would
+            # leave sixteen busy processes behind): PR_SET_PDEATHSIG = 1, SIGKILL
+            try:
+                import ctypes
+                ctypes.CDLL(None).prctl(1, 9)
+            except Exception:
+                pass
         self.p = subprocess.Popen([self.exe, so, self.log] + self.args, stdin=subprocess.PIPE, stdout=subprocess.DEVNULL,
                                   stderr=subprocess.DEVNULL, env=env, preexec_fn=pre, close_fds=False, cwd=self.dir)
         os.close(w)
@@ -89,7 +97,9 @@ class Driver:
             left = deadline - time.time()
             if left <= 0:
                 self.kill()
-                raise Crash(cmd, None, self._readlog(), hang=True)
+                e = Crash(cmd, None, self._readlog(), hang=True)
+                e.answered = len(lines) + self.buf.count(b'\n')
+                raise e
             rl, _, _ = select.select([self.r], [], [], left)
             if not rl:
                 continue
@@ -97,7 +107,9 @@ class Driver:
             if not chunk:
                 rc = self.p.wait()
                 self.p = None
-                raise Crash(cmd, rc, self._readlog())
+                e = Crash(cmd, rc, self._readlog())
+                e.answered = len(lines) + self.buf.count(b'\n')
+                raise e
             self.buf += chunk
 
     # What a driver remembers between commands: commands that start a fresh session ('reset'), commands whose last occurrence stays in force
